@@ -17,7 +17,7 @@ func init() {
 			"NOT decided: equivalence of pruning and full scan for all predicates (value-level), range-sharding key arithmetic, the record-writer path for measurements with a fixed shard count.",
 		Assumptions: commonAssumptions,
 		Technique:   "static analysis: predicate truth-table equivalence over normalised comparisons, branch-returns contracts on case-clause regions, sibling call-site tables, loop-carried buffer reset ordering",
-		Rules:       "C11.R1 R2 R3 R4",
+		Rules:       "C11.R1 R2 R3 R4 R5 R6",
 	}
 }
 
@@ -175,6 +175,42 @@ func c11(c *an.Ctx) {
 				}
 			}
 		}
+		// the AND arm merges every right-hand group into each left-hand group in place; that is only
+		// sound while a disjunction can never be a direct operand of AND, i.e. while parenthesised
+		// sub-conditions stay unconstrained (no case for *influxql.ParenExpr)
+		if f := fn(r, M+":getConditionTags"); f != nil {
+			paren := false
+			ast.Inspect(f.Body, func(n ast.Node) bool {
+				if cc, ok := n.(*ast.CaseClause); ok {
+					for _, e := range cc.List {
+						if t := f.Info.TypeOf(e); t != nil && regexp.MustCompile(`influxql\.ParenExpr$`).MatchString(t.String()) {
+							paren = true
+						}
+					}
+				}
+				return true
+			})
+			r.AddSites(1)
+			if paren {
+				andBody := f.CaseBody("influxql.AND")
+				inPlace := false
+				for _, st := range andBody {
+					ast.Inspect(st, func(n ast.Node) bool {
+						if as, ok := n.(*ast.AssignStmt); ok {
+							if se, ok := as.Lhs[0].(*ast.StarExpr); ok {
+								if _, isIdx := se.X.(*ast.IndexExpr); isIdx {
+									inPlace = true
+								}
+							}
+						}
+						return true
+					})
+				}
+				if inPlace {
+					r.Fail(f.Name+": AND of OR", c.P.Pos(f.Body.Pos()), "getConditionTags now looks through parentheses, so an OR can be an operand of AND, but the AND arm still merges all right-hand groups into each left-hand group in place (A ∧ (B1 ∨ B2) becomes A∧B1∧B2 and only the shard of B1 is consulted)")
+				}
+			}
+		}
 		if f := fn(r, M+":conditionTagsByBinary"); f != nil {
 			// only tag = 'string' equalities on a tag column constrain
 			nn := f.Find(an.MReturn("non-nil", func(f *an.Fn, rs *ast.ReturnStmt) bool {
@@ -182,6 +218,106 @@ func c11(c *an.Ctx) {
 			}))
 			f.Guarded(r, nn, "constraint only for columns that are tags", an.AtomLike(`==influx\.Field_Type_Tag$|^influx\.Field_Type_Tag==`, true))
 			f.Guarded(r, nn, "time conditions never constrain", an.AtomLike(`^meta\.isTimeCondition\(p0\)$`, false))
+		}
+	}
+	// ---------------------------------------------------------------- R5
+	{
+		r := c.Rule("C11.R5", "K-GUARD(completeness)", "read side: every shard group that is not deleted and overlaps the time range is consulted (no early exit from the scan, groups may nest after a duration change)")
+		for _, spec := range []string{"lib/metaclient:Client.ShardGroupsByTimeRange", M + ":Data.ShardGroupsByTimeRange", M + ":RetentionPolicyInfo.ShardGroupsByTimeRange"} {
+			f := fn(r, spec)
+			if f == nil {
+				continue
+			}
+			app := f.Find(an.MNode("groups = append(groups, g)", func(f *an.Fn, n ast.Node) bool {
+				as, ok := n.(*ast.AssignStmt)
+				if !ok || len(as.Rhs) != 1 {
+					return false
+				}
+				ce, ok := as.Rhs[0].(*ast.CallExpr)
+				if !ok {
+					return false
+				}
+				id, ok := ce.Fun.(*ast.Ident)
+				return ok && id.Name == "append"
+			}))
+			if app.Len() == 0 {
+				// delegation to one of the other two is fine
+				del := f.Find(call(r, M+":Data.ShardGroupsByTimeRange", M+":RetentionPolicyInfo.ShardGroupsByTimeRange"))
+				r.AddSites(del.Len())
+				if del.Len() == 0 && !r.Failed() {
+					r.Fail(spec+": selection", c.P.Pos(f.Body.Pos()), "neither selects groups nor delegates to a checked selector")
+				}
+				continue
+			}
+			f.LoopSelectsAll(r, app, "a group is skipped only if deleted or not overlapping; the scan never stops early",
+				an.AtomLike(`\.Deleted\(\)$`, true), an.AtomLike(`\.Overlaps\(p\d,p\d\)$`, false))
+			f.Guarded(r, app, "selected only if not deleted", an.AtomLike(`\.Deleted\(\)$`, false))
+			f.Guarded(r, app, "selected only if overlapping", an.AtomLike(`\.Overlaps\(p\d,p\d\)$`, true))
+		}
+	}
+	// ---------------------------------------------------------------- R6
+	{
+		r := c.Rule("C11.R6", "K-ORDER(cache)", "coordinator: the 'same measurement as the previous row' flag is computed before the previous-measurement cache is overwritten, and guards the reuse of the cached shard key")
+		const CO = "coordinator"
+		same := obj(r, CO+":writeHelper.sameMeasurement")
+		whCreate := obj(r, CO+":writeHelper.createMeasurement")
+		pkgCreate := obj(r, CO+":createMeasurement")
+		if same != nil && whCreate != nil && pkgCreate != nil {
+			// every caller of the caching createMeasurement computes the flag first, in the same iteration
+			seen := map[string]bool{}
+			for _, cs := range c.P.CallsTo(whCreate) {
+				if cs.Caller == nil || seen[cs.Caller.Name()] {
+					continue
+				}
+				seen[cs.Caller.Name()] = true
+				f := c.P.Fn(cs.Caller)
+				cr := f.Find(an.MCall("writeHelper.createMeasurement", whCreate)).Filter("inside the per-row loop", func(s an.Site) bool { return f.LoopBodyEntry(s) >= 0 })
+				if reason, ok := map[string]string{
+					CO + ":(*injestionCtx).initStreamVar": "initialises one write helper per stream target (loop over streams, not rows)",
+					CO + ":(*streamCtx).initVar":          "initialises one write helper per stream target (loop over streams, not rows)",
+				}[cs.Caller.Name()]; ok {
+					r.Except(cs.Caller.Name(), reason)
+					continue
+				}
+				if cr.Len() == 0 {
+					r.Except(cs.Caller.Name(), "calls createMeasurement once before the row loop (initialisation): no previous row to compare with")
+					continue
+				}
+				sm := f.Find(an.MCall("writeHelper.sameMeasurement", same))
+				f.Precedes(r, sm, cr, an.OrderOpt{Label: "sameMeasurement ≺ createMeasurement (per row)", Start: []int{f.LoopBodyEntry(cr.List[0])}})
+			}
+			r.Floor(2, "callers of writeHelper.createMeasurement")
+			// nobody computes the flag after the cache update
+			for _, cs := range c.P.CallsTo(pkgCreate) {
+				if cs.Caller == nil {
+					continue
+				}
+				f := c.P.Fn(cs.Caller)
+				sm := f.Find(an.MCall("writeHelper.sameMeasurement", same))
+				if sm.Len() > 0 {
+					f.NeverAfter(r, f.Find(an.MCall("createMeasurement", pkgCreate)), sm, "flag never computed after the cache was overwritten")
+				}
+			}
+		}
+		if f := fn(r, CO+":PointsWriter.updateShardGroupAndShardKey"); f != nil {
+			si := f.Find(an.MNode("*si = <shard key info>", func(f *an.Fn, n ast.Node) bool {
+				as, ok := n.(*ast.AssignStmt)
+				if !ok || len(as.Lhs) != 1 {
+					return false
+				}
+				st, ok := as.Lhs[0].(*ast.StarExpr)
+				if !ok {
+					return false
+				}
+				t := f.Info.TypeOf(st.X)
+				return t != nil && regexp.MustCompile(`^\*\*.*ShardKeyInfo$`).MatchString(t.String())
+			}))
+			// the cached shard key info may only be kept when both the group and the measurement are unchanged
+			use := f.Find(call(r, M+":ShardGroupInfo.ShardFor", M+":ShardGroupInfo.DestShard"))
+			if !r.Failed() {
+				f.Precedes(r, si, use, an.OrderOpt{Label: "shard chosen with a refreshed shard key info unless the measurement is the same as the previous row's",
+					Unless: []an.AtomPred{an.AtomLike(`\.sameMst$`, true)}})
+			}
 		}
 	}
 	// ---------------------------------------------------------------- R4
